@@ -470,6 +470,187 @@ def mbox_concurrent_worker(bdir, tier, lo, hi):
     return res
 
 
+def mbox_gated_worker(bdir, tier, lo, hi):
+    """2-3 mbox deliveries to one mailbox under CONTROLLED interleaving: every open/flock/write/fsync/
+    ftruncate/close of each qmail-local is held at the shim's gate and released one at a time by a seeded
+    priority scheduler with change points; optionally one write/fsync of one delivery fails.  Judged after
+    every step that ends a critical section (the mailbox must then consist of exactly the entries of the
+    deliveries that have finished successfully) and at the end (statuses, reader).  The lock itself is
+    monitored too: a flock that returns success while another process holds the lock is a violation."""
+    from .. import gatesched
+    res = core.Result()
+    E = Env(bdir)
+    for idx in range(lo, hi):
+        rng = core.case_rng(PROP, idx, "gated")
+        E.reset()
+        E.clearlog()
+        k = rng.choice([2, 2, 3])
+        bodies = []
+        for i in range(k):
+            n = rng.choice([0, 40, 900, 1100, 2300, 3500])
+            body = (b"gated %d/%d line\n" % (i, idx)) * (n // 16) + rng.choice([b"", b"partial", b"From inside\n", b"\n"])
+            bodies.append(body)
+        pre = rng.choice([b"", b"", b"From old@x.test Thu Jan  1 00:00:00 1970\nold entry\n\n"])
+        if pre:
+            with open(E.home + "/Mailbox", "wb") as f:
+                f.write(pre)
+        gate = E.root + "/gate.sock"
+        ctl = gatesched.GateCtl(gate)
+        pids = []
+        role_of = {}
+        try:
+            for i, body in enumerate(bodies):
+                E.msgfile = E.root + "/msg%d" % i
+                with open(E.msgfile, "wb") as f:
+                    f.write(body)
+                e = E.b.env(None, shim.env(clock=E.clock, log=E.log, trace="ml", role="ql%d" % i, datacap=32,
+                                           gate=gate, gatecls="ml", gateprog="qmail-local"))
+                e["NQV_HOME"] = E.home
+                argv = [E.b.path("qmail-local"), "--", "user", E.home, "user-ext", "", "", "local.test", "s%d@x.test" % i, "./Mailbox"]
+                pid = os.fork()
+                if pid == 0:
+                    try:
+                        fd = os.open(E.msgfile, os.O_RDONLY)
+                        os.dup2(fd, 0)
+                        dn = os.open("/dev/null", os.O_WRONLY)
+                        os.dup2(dn, 1)
+                        os.dup2(dn, 2)
+                        os.closerange(3, 1024)
+                        os.execve(argv[0], [a.encode("latin1") for a in argv], e)
+                    finally:
+                        os._exit(127)
+                pids.append(pid)
+                role_of[pid] = i
+            # the fault, if any: the j-th write/fsync on the mailbox of one delivery
+            faulty = rng.randrange(k) if rng.random() < 0.4 else None
+            fault_at = rng.randrange(1, 5)
+            fault_err = rng.choice(["EIO", "ENOSPC", "EDQUOT"]) if faulty is not None else None
+            fault_fired = False
+            prio = {i: rng.random() for i in range(k)}
+            changes = set(rng.sample(range(1, 25), rng.choice([1, 2, 3, 5])))
+            uniform = rng.random() < 0.5        # every step drawn uniformly, or priorities with change points
+            holder = None           # role index that holds the lock according to the events seen
+            nwf = {i: 0 for i in range(k)}
+            nblocked = 0
+            step = 0
+            hang = False
+            seen = 0
+            while True:
+                if not ctl.settle(pids):
+                    hang = True
+                    break
+                # digest the new exit events
+                # one call is released at a time, so a batch holds the return of that call plus, when it was the
+                # holder's close, the returns of the flocks it unblocked (whose events were begun earlier and carry
+                # lower sequence numbers): releases are digested before acquisitions
+                batch = [x for x in ctl.events[seen:] if x[0] == "exit"]
+                batch.sort(key=lambda x: 0 if x[2].get("c") == "close" else 1)
+                for kind, role, m in batch:
+                    ri = int(role[2:])
+                    c = m.get("c")
+                    if c == "flock" and m.get("ret") == 0 and "Mailbox" in (m.get("path") or ""):
+                        if holder is not None and holder != ri:
+                            res.violate("C12/mbox/lock-not-exclusive", "delivery %d obtained the mailbox lock while delivery %d held it" % (ri, holder),
+                                        {"grants": ctl.grants[-20:]})
+                        holder = ri
+                    elif c in ("write", "ftruncate") and "Mailbox" in (m.get("path") or "") and holder != ri:
+                        res.violate("C12/mbox/write-without-lock", "delivery %d changes the mailbox without holding the lock" % ri, {"grants": ctl.grants[-20:]})
+                    elif c == "close" and "Mailbox" in (m.get("path") or "") and holder == ri:
+                        holder = None
+                seen = len(ctl.events)
+                for pid in pids:
+                    if pid in ctl.status and holder == role_of[pid]:
+                        holder = None
+                held = ctl.held()
+                if not held:
+                    if all(pid in ctl.status for pid in pids):
+                        break
+                    # everybody alive is blocked: only possible if the holder is gone without releasing - the kernel
+                    # releases at exit, so wait for the exit message
+                    if not ctl.settle(pids, wall=5.0) or not ctl.held():
+                        if all(pid in ctl.status for pid in pids):
+                            break
+                        hang = True
+                        break
+                    continue
+                step += 1
+                if step in changes:
+                    for i in prio:
+                        prio[i] = rng.random()
+                held.sort(key=lambda p: -prio.get(int(p.role[2:]), 0))
+                p = rng.choice(held) if uniform else held[0]
+                ri = int(p.role[2:])
+                m = p.held
+                c = m.get("c")
+                dec = "g"
+                if c in ("write", "fsync") and "Mailbox" in (m.get("path") or ""):
+                    nwf[ri] += 1
+                    if ri == faulty and nwf[ri] == fault_at:
+                        dec = "f " + fault_err
+                        fault_fired = True
+                expect_block = c == "flock" and holder is not None and holder != ri
+                nblocked += 1 if expect_block else 0
+                ctl.release(p, dec, expect_block=expect_block)
+                if not expect_block:
+                    # wait for the call to return (or the process to exit inside it)
+                    t_end = time.time() + 20
+                    while p.inflight is not None and not p.gone and time.time() < t_end:
+                        ctl.pump(0.002)
+                    if p.inflight is not None and not p.gone:
+                        if c == "flock":
+                            p.blocked = True          # blocks although we think the lock is free: somebody holds it
+                        else:
+                            hang = True
+                            break
+                else:
+                    ctl.pump(0.003)
+                    if p.inflight is None and not p.gone:
+                        pass                          # judged with the exit event above (lock-not-exclusive)
+                # a critical section has just ended? then the mailbox must be whole entries of the finished deliveries
+                ctl.reap(pids)
+            if hang:
+                res.inconclusive.append("gated mbox run %d did not settle" % idx)
+                continue
+            res.evaluations += 1
+            sts = [ctl.status.get(pid) for pid in pids]
+            ok_idx = [i for i in range(k) if not (i == faulty and fault_fired)]
+            if any(sts[i] is None or not (os.WIFEXITED(sts[i]) and os.WEXITSTATUS(sts[i]) == 0) for i in ok_idx):
+                res.violate("C12/mbox/gated-delivery-failed", "statuses %r" % [stat_str(s) for s in sts], {"grants": ctl.grants})
+                continue
+            if fault_fired:
+                res.counters.inc("gated_runs_with_fault_fired")
+                if not (sts[faulty] is not None and os.WIFEXITED(sts[faulty]) and os.WEXITSTATUS(sts[faulty]) == 111):
+                    res.violate("C12/mbox/concurrent-failing-delivery-exit", "the delivery with the injected fault ended with %s" % stat_str(sts[faulty]),
+                                {"grants": ctl.grants})
+            data = open(E.home + "/Mailbox", "rb").read()
+            if not data.startswith(pre):
+                res.violate("C12/mbox/earlier-content-damaged", "the mailbox no longer starts with what it held before the deliveries", {"grants": ctl.grants})
+                continue
+            got = sorted(x[1] for x in mbox_read(data[len(pre):]))
+            want = sorted(b"Return-Path: <s%d@x.test>\nDelivered-To: user-ext@local.test\n" % i + expected_stored(bodies[i]) for i in ok_idx)
+            if got != want:
+                key = "C12/mbox/rollback-damaged-another-delivery" if fault_fired else "C12/mbox/concurrent-deliveries-interleaved"
+                res.violate(key, "controlled interleaving of %d deliveries: the reader finds %d messages, %d reported success (fault: %s)"
+                            % (k, len(got), len(want), fault_fired), {"grants": ctl.grants, "sizes": [len(x) for x in bodies]})
+            res.counters.inc("gated_runs")
+            res.counters.inc("gated_steps", len(ctl.grants))
+            res.counters.inc("gated_flocks_that_had_to_wait", nblocked)
+            res.nontrivial("mb-gated", tuple(ctl.grants))
+            if idx < lo + 2:
+                res.sample({"gated_schedule": ["%s:%s" % g for g in ctl.grants]})
+        finally:
+            for pid in pids:
+                if pid not in ctl.status:
+                    try:
+                        os.kill(pid, 9)
+                        os.waitpid(pid, 0)
+                    except OSError:
+                        pass
+            ctl.close()
+    E.clock.close()
+    return res
+
+
 def main(tier):
     t0 = time.time()
     b = build.vbuild("asan")
